@@ -153,7 +153,8 @@ impl LinInst {
 
 pub fn gen_coef(rng: &mut Rng) -> f64 {
     match rng.below(10) {
-        0 => *rng.pick(&[0.1, -0.3, 1e-3, 12345.678, -2.5e7, 1e21, 3.0e-9]),
+        // incl. magnitudes whose shortest round-trip decimal form needs 17 significant digits
+        0 => *rng.pick(&[0.1, -0.3, 1e-3, 12345.678, -2.5e7, 1e21, 3.0e-9, 18446744073709551615.0, 3.0000000000000004e-8, -1.2345678901234567e-300, 1.7976931348623157e308, 5e-324, 0.1 + 0.2]),
         _ => rng.half(4, true),
     }
 }
@@ -232,7 +233,13 @@ pub fn gen_inst(rng: &mut Rng) -> LinInst {
     if !inst.vars.is_empty() && rng.chance(1, 10) {
         let i = inst.vars[rng.usize(inst.vars.len())].id;
         let j = inst.vars[rng.usize(inst.vars.len())].id;
-        let c = F(gen_coef(rng));
+        // a quadratic coefficient the SDK itself regards as non-zero (it drops magnitudes below machine epsilon)
+        let c = loop {
+            let c = gen_coef(rng);
+            if c.abs() > 1e-9 {
+                break F(c);
+            }
+        };
         inst.nonlinear = Some(if inst.cons.is_empty() || rng.chance(1, 2) { Nonlin::Objective { i, j, c } } else { Nonlin::Constraint { index: rng.usize(inst.cons.len()), i, j, c } });
     }
     inst
